@@ -33,9 +33,12 @@ def edgeLinear (lo hi res n i : α) : α :=
 /-- log bin edges: ten to the linear edges computed in log10 space -/
 def edgeLog (lo hi res n i : α) : α := pow10 (edgeLinear (log10 lo) (log10 hi) res n i)
 
-/-- logicle bin edges: the logicle transform of a uniform grid `[-δ/2, M+δ/2]`, `δ = M/(res-1)` -/
+/-- NumPy's `linspace(a, b, n+1)[i]` -/
+def linspaceAt (a b n i : α) : α := a + i * ((b - a) / n)
+
+/-- logicle bin edges: the logicle transform of a uniform grid `[-δ/2, M+δ/2]`, `δ = M/(res-1)` (`- delta_res/2.` parses as `(-δ)/2`) -/
 def edgeLogicle (T M W p res n i : α) : α :=
   let δ := M / (res - 1)
-  logicle T M W p ((-(δ / 2)) + i * (((M + δ / 2) - (-(δ / 2))) / n))
+  logicle T M W p (((-δ) / 2) + i * (((M + δ / 2) - ((-δ) / 2)) / n))
 
 end FlowCal.Logicle
